@@ -308,10 +308,10 @@ def structural_defaults(repo):
     for key, want in sorted(RECURSION_CUT_DEFAULTS.items()):
         key = (key[0], key[1].split('.')[-1])
         if key not in found:
-            out.append({'id': 'cut-default:%s' % key[1], 'kind': 'inventory', 'ok': None,
+            out.append({'id': 'cut-default:%s' % key[1], 'definite': True, 'kind': 'inventory', 'ok': None,
                         'label': 'memoised function %s not found in %s (shape changed)' % (key[1], key[0])})
             continue
-        out.append({'id': 'cut-default:%s' % key[1], 'kind': 'inventory', 'ok': found[key] is not None,
+        out.append({'id': 'cut-default:%s' % key[1], 'definite': True, 'kind': 'inventory', 'ok': found[key] is not None,
                     'label': 'give-up guard in place: the memo of %s stores a default before computing, so a '
                              'definition that reaches itself again (any cycle) gets the default instead of recursing'
                              % key[1], 'detail': 'default now: %r (registered: %s)' % (found[key], want)})
@@ -338,19 +338,19 @@ def structural_guards(repo):
         t = tree_of(rel)
         fn = _find(t, qn) if t is not None else None
         if fn is None:
-            out.append({'id': 'guard:%s' % qn, 'kind': 'inventory', 'ok': None,
+            out.append({'id': 'guard:%s' % qn, 'definite': True, 'kind': 'inventory', 'ok': None,
                         'label': 'guard inventory: %s not found in %s' % (qn, rel)})
             continue
         decos = [ast.unparse(d) for d in fn.decorator_list]
         ok = any(d.startswith(deco) for d in decos)
-        out.append({'id': 'guard:%s' % qn, 'kind': 'inventory', 'ok': ok,
+        out.append({'id': 'guard:%s' % qn, 'definite': True, 'kind': 'inventory', 'ok': ok,
                     'label': 'give-up guard in place: %s is decorated with %s' % (qn, deco),
                     'detail': 'decorators: %r' % decos})
     for rel, qn, cm in WITH_GUARDS:
         t = tree_of(rel)
         fn = _find(t, qn) if t is not None else None
         if fn is None:
-            out.append({'id': 'with-guard:%s' % qn, 'kind': 'inventory', 'ok': None,
+            out.append({'id': 'with-guard:%s' % qn, 'definite': True, 'kind': 'inventory', 'ok': None,
                         'label': 'guard inventory: %s not found in %s' % (qn, rel)})
             continue
         used = False
@@ -359,7 +359,7 @@ def structural_guards(repo):
                 for it in n.items:
                     if cm in ast.unparse(it.context_expr):
                         used = True
-        out.append({'id': 'with-guard:%s' % qn, 'kind': 'inventory', 'ok': used,
+        out.append({'id': 'with-guard:%s' % qn, 'definite': True, 'kind': 'inventory', 'ok': used,
                     'label': 'give-up guard in place: %s runs under %s' % (qn, cm)})
     # the two recursive followers of import names carry the set of names already on the path
     for rel, qn, needles, what in (
@@ -389,10 +389,10 @@ def structural_guards(repo):
                     changed = True
         for q in RESET_QUERIES:
             if q not in methods:
-                out.append({'id': 'reset:%s' % q, 'kind': 'inventory', 'ok': None,
+                out.append({'id': 'reset:%s' % q, 'definite': True, 'kind': 'inventory', 'ok': None,
                             'label': 'Script.%s not found' % q})
                 continue
-            out.append({'id': 'reset:%s' % q, 'kind': 'inventory', 'ok': q in resets,
+            out.append({'id': 'reset:%s' % q, 'definite': True, 'kind': 'inventory', 'ok': q in resets,
                         'label': 'Script.%s resets the give-up budgets (directly or via a Script method that does)' % q})
     # reset_recursion_limitations re-creates every budget consulted by a guard
     t2 = tree_of('jedi/inference/__init__.py')
@@ -412,7 +412,7 @@ def structural_guards(repo):
     # sys.setrecursionlimit(3000) at import of jedi.api
     if t is not None:
         ok = any(isinstance(n, ast.Expr) and 'sys.setrecursionlimit(3000)' in ast.unparse(n) for n in t.body)
-        out.append({'id': 'py-recursionlimit', 'kind': 'inventory', 'ok': ok,
+        out.append({'id': 'py-recursionlimit', 'definite': True, 'kind': 'inventory', 'ok': ok,
                     'label': 'jedi.api raises the interpreter recursion limit to 3000 at import'})
     return out
 
